@@ -64,6 +64,13 @@ def getEquil (j : Json) (k : String) : Except String (Except String (Equil Rat))
   | .ok v => asEquil v
   | _ => .error s!"!bad-arg:{k}"
 
+/-- an operand: an equilibrium object, or `null` for a number (the int 0) -/
+def getOperand (j : Json) (k : String) : Except String (Except String (Operand Rat)) :=
+  match j.getObjVal? k with
+  | .ok .null => .ok (.ok Operand.number)
+  | .ok v => do pure ((← asEquil v).map Operand.eq)
+  | _ => .error s!"!bad-arg:{k}"
+
 partial def asExpr (j : Json) : Except String (Except String (EqExpr Rat)) := do
   let t ← getStr j "t"
   let sub (k : String) : Except String (Except String (EqExpr Rat)) :=
@@ -121,11 +128,26 @@ def h : Handler := fun op j =>
       let e ← getEquil j "eq"
       pure (showRes (do let e ← e; neg e))
   | "add" => do
-      let a ← getEquil j "a"; let b ← getEquil j "b"
-      pure (showRes (do let a ← a; let b ← b; add a b))
+      let a ← getOperand j "a"; let b ← getOperand j "b"
+      pure (showRes (do let a ← a; let b ← b; addPy a b))
   | "sub" => do
-      let a ← getEquil j "a"; let b ← getEquil j "b"
-      pure (showRes (do let a ← a; let b ← b; sub a b))
+      let a ← getOperand j "a"; let b ← getOperand j "b"
+      pure (showRes (do let a ← a; let b ← b; subPy a b))
+  | "sum" => do
+      let es ← (← getArr j "eqs").mapM asEquil
+      let start ← (match j.getObjVal? "start" with
+        | .ok .null => .ok none
+        | .ok v => do pure (some (← asEquil v))
+        | _ => .error "!bad-arg:start")
+      let r : Except String (Option (Equil Rat)) := do
+        let es ← es.mapM id
+        match start with
+        | none => sumPy none es
+        | some s => do let s ← s; sumPy (some s) es
+      match r with
+      | .ok none => pure "0"
+      | .ok (some e) => pure (showEquil e)
+      | .error s => pure s
   | "expr" => do
       let t ← (match j.getObjVal? "tree" with
         | .ok v => asExpr v
